@@ -13,6 +13,7 @@ import numpy as np
 from vmon import core, gen, contracts
 from vmon import refmodel as rm
 
+ANCHORS = ['evo/core/trajectory.py', 'evo/core/filters.py']
 LEVEL = "exploration"
 SHARDS = {"quick": 8, "thorough": 16}
 RULE = ("trajectories from class generators (exact integer grids with identity / pi/8 "
